@@ -364,8 +364,8 @@ def behaviours_of(rep, cfg, seen):
 
 
 def run(rep):
-    cfgs = ['MC_Results_quick.cfg'] if rep.tier == 'quick' else \
-        ['MC_Results_quick.cfg', 'MC_Results_thorough.cfg', 'MC_Results_thorough2.cfg']
+    cfgs = ['MC_Results_quick.cfg', 'MC_Results_quick2.cfg'] if rep.tier == 'quick' else \
+        ['MC_Results_quick.cfg', 'MC_Results_quick2.cfg', 'MC_Results_thorough.cfg', 'MC_Results_thorough2.cfg']
     rep.rule = ('behaviours = all maximal call histories of the bounded Results instance emitted by TLC '
                 '(Get name x cutoff, MutateHeld index x {append,pop}, SetSuppress, SetCutoff, RenderTable fmt, '
                 'BaseCsv; MaxHist calls); each is executed on a real Model holding the known series (and, '
